@@ -48,6 +48,7 @@ inductive ConnState | new | active | closed | disconnected
 inductive W
   | connect | publish (qos id : Nat) | pubrel (id : Nat) | subscribe (id n : Nat) | unsubscribe (id : Nat)
   | pingreq | disconnect
+  | puback (id : Nat) | pubrec (id : Nat) | pubcomp (id : Nat)     -- acknowledgements of inbound PUBLISH / PUBREL
   deriving DecidableEq, Repr
 
 structure St where
@@ -67,6 +68,7 @@ structure St where
   transportOpen : Bool := true
   writeFails : Bool := false              -- the transport refuses writes (but is not closed)
   writes : List W := []
+  inQ2 : List Nat := []                   -- serve.go `subBuffer`: ids of inbound QoS 2 messages awaiting PUBREL
   callbacks : List (ConnState × Option ErrClass) := []
   deriving Repr
 
@@ -100,6 +102,8 @@ inductive In
   | puback (id : Nat) | pubrec (id : Nat) | pubcomp (id : Nat)
   | suback (id : Nat) (codes : List Nat) | unsuback (id : Nat)
   | pingresp
+  | publish (qos id : Nat)              -- an inbound PUBLISH (serve.go:66-98); qos ∈ {0,1,2}
+  | pubrel (id : Nat)                   -- an inbound PUBREL (serve.go:117-138)
   | malformed                           -- any packet the parsers reject: the reader returns an error
   deriving DecidableEq, Repr
 
@@ -205,6 +209,20 @@ def inbound (s : St) (p : In) : St :=
     match s.pingResp with
     | some i => wake s i .waitPingResp fun _ s => setPhase s i (.returned .ok)
     | none => s
+  -- inbound application messages: the reader acknowledges them itself; a failing acknowledgement write
+  -- ends the reader with that error (`return wrapError(err, "sending PUBACK")`)
+  | .publish qos id =>
+    if qos = 0 then s
+    else if qos = 1 then
+      if canWrite s then { s with writes := s.writes ++ [.puback id] } else readerEnds s .other
+    else
+      if canWrite s then { s with writes := s.writes ++ [.pubrec id], inQ2 := id :: s.inQ2.filter (· ≠ id) }
+      else readerEnds s .other
+  | .pubrel id =>
+    if s.inQ2.contains id then
+      let s := { s with inQ2 := s.inQ2.filter (· ≠ id) }
+      if canWrite s then { s with writes := s.writes ++ [.pubcomp id] } else readerEnds s .other
+    else s
 
 inductive Ev
   | call (k : Kind) (id : Nat)
